@@ -87,6 +87,9 @@ func printerReplay(args []string) {
 	installHook(*hook)
 	rep := lib.NewReport(*prop, "printer-replay")
 	defer installPoolMonitor(rep)()
+	if *prop == "C08" || *prop == "C11" {
+		joinEdgeCases(rep)
+	}
 	mon := installModeMonitor(rep, 0) // scripted user programs (call-backs, nested printers, panics) under the mode monitor
 	lib.Parallel(runtime.NumCPU(), func(emit func([]byte)) {
 		_ = lib.TLCLines(os.Stdin, func(raw []byte) { emit(append([]byte(nil), raw...)) })
@@ -116,6 +119,18 @@ func replayPrinterLine(rep *lib.Report, prop string, ln *printerLine, raw []byte
 	if res.Panicked {
 		return
 	}
+	// the comparison with the model's prediction needs the real values to be what the terms say they are (a change to
+	// the library can make them something else, e.g. a wrapper constructor that returns its operand): if the prediction
+	// cannot be rendered that is drift, and the property's own predicates are still evaluated on the real result
+	judged := false
+	defer func() {
+		if r := recover(); r != nil {
+			rep.DriftAt(fmt.Sprintf("%s: the model's prediction could not be rendered against the real values (%v)", desc(), r))
+			if !judged {
+				rep.Guard("printer:panic", json.RawMessage(raw), func() { judgePrinter(rep, prop, c, ln, &res, raw) })
+			}
+		}
+	}()
 	exp, hot := c.Expect(ln.Out, ln.Rt)
 	if hot {
 		rep.Hot()
@@ -134,6 +149,7 @@ func replayPrinterLine(rep *lib.Report, prop string, ln *printerLine, raw []byte
 			rep.DriftAt(fmt.Sprintf("%s: returned error %v, model term %d", desc(), res.Err, ln.Werr))
 		}
 	}
+	judged = true
 	judgePrinter(rep, prop, c, ln, &res, raw)
 	rep.Nontrivial(string(exp))
 	smp := map[string]interface{}{"case": desc(), "real_output": string(res.Out), "model_output": string(exp)}
@@ -433,6 +449,9 @@ func judgePrinter(rep *lib.Report, prop string, c *lib.Ctx, ln *printerLine, res
 			}
 		}
 	}
+	if is("C05") || is("C16") {
+		judgeSafeNumberTwin(rep, c, ln, res, kase)
+	}
 	if is("C06") {
 		judgeC06(rep, c, ln, res, kase)
 	}
@@ -700,6 +719,64 @@ func judgeC11(rep *lib.Report, c *lib.Ctx, ln *printerLine, res *realResult, kas
 	// the payload is unsafe: no secret payload text outside envelopes
 	if leaked := secretsVisible(ln.C.Ts, res.Out); leaked != "" {
 		rep.Violate("printer:panic-payload-visible", fmt.Sprintf("%s: secret payload %q is outside envelopes in %q", desc, leaked, res.Out), kase)
+	}
+}
+
+// judgeSafeNumberTwin: what a SafeFormat method emits through SafeInt / SafeUint / SafeFloat is a safe text like any
+// other; how it was emitted must not matter to anything printed after it (field names, separators, flags of the
+// enclosing directive for the following elements).  The same call is made with those emitters replaced by
+// SafeString of the same digits; for the flag-free number renderings of %v, %+v and Sprint the two results must be
+// identical.
+func judgeSafeNumberTwin(rep *lib.Report, c *lib.Ctx, ln *printerLine, res *realResult, kase json.RawMessage) {
+	if res.Panicked || lib.HasKind(ln.C.Ts, "ptrto", "chan", "func") {
+		return
+	}
+	f := string(c.Subst(ln.C.F))
+	if ln.C.E != "Sprint" && ln.C.E != "Sprintln" && !(ln.C.E == "Sprintf" && (f == "a %v a" || f == "a %+v a" || f == "x=%v y=%v" || f == "x=%+v y=%+v")) {
+		return
+	}
+	raw, _ := json.Marshal(ln.C)
+	var tw pCase
+	_ = json.Unmarshal(raw, &tw)
+	changed := false
+	walkTerms(tw.Ts, func(t *lib.Term) {
+		for i, op := range t.Scr {
+			var txt string
+			switch op.O {
+			case "SafeInt":
+				txt = fmt.Sprint(op.N)
+			case "SafeUint":
+				txt = fmt.Sprint(uint64(int64(op.N)))
+			case "SafeFloat":
+				txt = fmt.Sprint(c.Value(op.Ts[0]))
+			default:
+				continue
+			}
+			nb := make([]int, len(txt))
+			for j := range txt {
+				nb[j] = int(txt[j])
+			}
+			t.Scr[i] = lib.SOp{O: "SafeString", B: nb}
+			changed = true
+		}
+	})
+	if !changed {
+		return
+	}
+	// both runs in contexts of their own that share the object handles
+	rc := lib.NewCtx(c.Dict)
+	rr := runCase(rc, ln.C)
+	rc.Release()
+	tc := lib.NewCtxLike(c.Dict, rc.HandleBase)
+	tr := runCase(tc, tw)
+	tc.Release()
+	rep.AddEval(1)
+	if rr.Panicked || tr.Panicked {
+		return
+	}
+	rep.Count("safe_number_twin_compared", 1)
+	if !bytes.Equal(rr.Out, tr.Out) {
+		rep.Violate("printer:safe-number-emitters", fmt.Sprintf("%s: output %q; with SafeInt/SafeUint/SafeFloat replaced by SafeString of the same digits the same call prints %q", caseString(c, ln.C), rr.Out, tr.Out), kase)
 	}
 }
 
